@@ -332,12 +332,24 @@ theorem acc_bare_case (c : Ctx) (hign : c.ign = true) (k : String)
     eval c (.doc [(k, v)]) = .ok (some w) := by
   rw [acc_bare_eval c hign k hk v ha ys h1 hr, hs]; rfl
 
-/-- a missing bare operand makes the whole expression missing (finding `accbaremissing`: the rules
-    say 0 for `$sum`, null for the others) -/
+theorem accS_none (k : String) (hk : k = "$sum" ∨ k = "$avg" ∨ k = "$min" ∨ k = "$max") :
+    accS k [none] = accS k [] := by
+  rcases hk with rfl | rfl | rfl | rfl <;> rfl
+
+/-- a missing bare operand: there is nothing to accumulate, `$sum` is 0 and the others are null
+    (it used to make the whole expression missing: finding `accbaremissing`, repaired by 50b60be) -/
 theorem acc_bare_missing (c : Ctx) (k : String)
     (hk : k = "$sum" ∨ k = "$avg" ∨ k = "$min" ∨ k = "$max") (v : Val) (ha : v.isArr = false)
-    (h1 : eval c v = .ok none) : eval c (.doc [(k, v)]) = .ok none := by
+    (h1 : eval c v = .ok none) : eval c (.doc [(k, v)]) = (accBareS k none).map some := by
+  have hp := acc_eq k hk [] (by
+    rcases hk with rfl | rfl | rfl | rfl <;> simp [strictReasons, arithOps, presentOf, pairwiseReasons])
+  have hn : nulled ([] : List (Option Val)) = [] := rfl
+  rw [hn] at hp
   rw [acc_eval_bare c k hk v ha, h1]
+  have : accBareS k none = accS k [] := by
+    show accS k [none] = accS k []
+    exact accS_none k hk
+  rw [this, ← hp]
   rcases hk with rfl | rfl | rfl | rfl <;>
     simp [Except.bind, applyWhole, unaryArithOps, dateOps, datePartOps, groupingOps]
 
